@@ -35,6 +35,9 @@ record RS { s: String, l: List[Tr] }
 enum En { A(Tr, Tr), B(i32), C, D(u64, Tr), E(u32, u32, Tr), F(Tr, u64, String) }
 record R2 { n: u64, t: Tr, s: String }
 const KT: Tr = mk(900);
+const KR: R = R { t: mk(904), n: 1 };
+const KR2: R2 = R2 { n: 5, t: mk(905), s: \"k\" };
+const KO: Tr? = Option.Some(mk(906));
 fn id(x: Tr) -> Tr { x }
 fn two(x: Tr, y: Tr) -> Tr { y }
 fn opt(c: bool, x: Tr) -> Tr? { if c { Option.Some(x) } else { Option.None } }
@@ -59,9 +62,9 @@ struct G {
     sig: Sig,
 }
 
-const N_V: usize = 13;
+const N_V: usize = 16;
 const N_B: usize = 8;
-pub const ROTATIONS: usize = 13;
+pub const ROTATIONS: usize = 16;
 
 impl G {
     fn k(&mut self) -> u64 {
@@ -91,6 +94,12 @@ impl G {
             6 => format!("first([mk({k}), mk({})])", k + 500),
             7 => format!("two(mk({k}), mk({}))", k + 500),
             8 => "KT".to_string(),
+            // a field taken directly off a record constant, a constant with a String next to the
+            // tracked field, the payload of an Option constant (seeded change C03-10: the
+            // temporary copy of the constant made for `CONST.field` was never dropped)
+            13 => "KR.t".to_string(),
+            14 => "KR2.t".to_string(),
+            15 => "pay(KO)".to_string(),
             10 => format!("payd(En.D({k}, mk({k})))"),
             11 => format!("payd(En.E(1, 2, mk({k})))"),
             12 => format!("payd(En.F(mk({k}), 9, f\"{{a}}\"))"),
